@@ -3,11 +3,19 @@
 //	(0) filepath.Clean / Join / Dir / IsAbs against the Coq path model,
 //	(1) txtar.Write into sandbox directories with pre-existing files, against the
 //	    model's write and against direct oracles (containment, no overwrite, errors
-//	    for absolute / climbing names, contents),
-//	(2) the built txtar-c and txtar-x commands on generated trees, against the
-//	    model's savedir/extract and against a direct round-trip oracle.
-//
-// Symbolic links inside the target directory are out of scope (none are created).
+//	    for absolute / climbing names, contents, descriptor baseline),
+//	(1b) symbolic links inside the target: a link in a directory component is out of
+//	    scope (documented, tied to Symlink.v); a link in the last component must be
+//	    refused like any existing object,
+//	(1c) descriptors and failing system calls (fd.go, big.go): the open/close order of
+//	    the created files observed with inotify, short writes and descriptor exhaustion
+//	    provoked with resource limits in child processes, against the model's write_f;
+//	    archives of thousands of entries / deep trees / long names / big data under a
+//	    descriptor budget,
+//	(2) the built txtar-c and txtar-x commands on generated trees (small ones against the
+//	    model's txtar_c_main / txtar_x_main, big ones by the direct round-trip oracle only),
+//	    through every input route of txtar-x, both kinds of standard output of txtar-c,
+//	    every spelling of the flags and of the directory arguments.
 package main
 
 import (
@@ -150,7 +158,12 @@ type wcase struct {
 }
 
 const nScenarios = 6
-const nDirForms = 5
+const nDirForms = 8
+
+// dirFormLink: the directory is reached through a symbolic link ABOVE it (root/plink ->
+// parent); the link is not inside the target, so the property applies unchanged.  The plain
+// file-system model has no links: this form is evaluated by the direct oracles only.
+const dirFormLink = 7
 
 // setup creates the scenario under root and returns what exists.  Layout:
 // root/parent/target is the directory given to Write; root/parent holds siblings.
@@ -240,6 +253,21 @@ func dirArg(root string, sc, form int) (dir, cwd string, ok bool) {
 			return "", "", false
 		}
 		return "../parent/./target", root + "/parent", true
+	case 5: // "." from inside the target (txtar-x's default)
+		if sc != 0 && sc != 1 && sc != 5 {
+			return "", "", false
+		}
+		return ".", root + "/parent/target", true
+	case 6: // relative with a trailing slash
+		if sc == 3 {
+			return "", "", false
+		}
+		return "target/", root + "/parent", true
+	case dirFormLink:
+		if sc == 3 {
+			return "", "", false
+		}
+		return root + "/plink/target", "", true
 	}
 	return "", "", false
 }
@@ -290,7 +318,13 @@ func runWrite(work string, c wcase) (wresult, bool) {
 	if !ok {
 		return wresult{}, false
 	}
+	if c.DirForm == dirFormLink {
+		if err := os.Symlink("parent", filepath.Join(root, "plink")); err != nil {
+			return wresult{}, false
+		}
+	}
 	before := snapshot(root)
+	delete(before, "plink")
 	a := &txtar.Archive{}
 	for _, e := range c.Entries {
 		a.Files = append(a.Files, txtar.File{Name: e.Name, Data: e.Data})
@@ -312,6 +346,7 @@ func runWrite(work string, c wcase) (wresult, bool) {
 		return wresult{}, false
 	}
 	after := snapshot(root)
+	delete(after, "plink")
 	return wresult{res: classify(err), before: before, after: after, dirAbs: root + "/parent/target", fdBefore: fdB, fdAfter: fdA}, true
 }
 
@@ -379,13 +414,35 @@ func writeOracles(c wcase, r wresult) []string {
 			}
 		}
 	}
-	// success implies no absolute and no climbing name
-	if r.res == "ok" {
-		for _, e := range c.Entries {
-			if strings.HasPrefix(e.Name, "/") || climbs(e.Name) {
+	// an absolute or climbing name stops Write with an error at that entry: whatever is new
+	// afterwards is the file of an EARLIER entry or a directory above one
+	for j, e := range c.Entries {
+		if !(strings.HasPrefix(e.Name, "/") || climbs(e.Name)) {
+			continue
+		}
+		if r.res == "ok" {
+			add("write/rejects")
+		}
+		explained := map[string]bool{}
+		for _, p := range c.Entries[:j] {
+			for t := filepath.Join(targetRel, p.Name); t != "." && t != "/"; t = filepath.Dir(t) {
+				explained[t] = true
+			}
+		}
+		for t := targetRel; t != "." && t != "/"; t = filepath.Dir(t) {
+			if j > 0 {
+				explained[t] = true
+			}
+		}
+		for k := range r.after {
+			if _, old := r.before[k]; !old && !explained[k] {
 				add("write/rejects")
 			}
 		}
+		break
+	}
+	// on success each file holds exactly the entry's data
+	if r.res == "ok" {
 		for _, e := range c.Entries {
 			rel := filepath.Join(targetRel, e.Name)
 			if strings.HasPrefix(e.Name, "/") || climbs(e.Name) {
@@ -1121,8 +1178,11 @@ func (rn *runner) writeCase(c wcase, tag string) {
 	res.Case(key, nontrivial)
 	// model
 	root := filepath.Join(rn.f.Work, fmt.Sprintf("w%d", caseSeq))
-	want := rn.m.Ask1(writeReq(root, c, r.before))
-	got := r.res + " " + fsAns(r.after)
+	want, got := "", ""
+	if c.DirForm != dirFormLink {
+		want = rn.m.Ask1(writeReq(root, c, r.before))
+		got = r.res + " " + fsAns(r.after)
+	}
 	input := func() map[string]string {
 		in := entriesInput(c.Entries)
 		in["case_json"] = mustJSON(c)
@@ -1169,6 +1229,10 @@ func (rn *runner) writeCase(c wcase, tag string) {
 		res.Violate(common.Violation{Kind: "impl-violation", Oracle: o, Input: in,
 			Impl: fmt.Sprintf("result=%s; new objects relative to the sandbox root: %q", r.res, news), Key: fmt.Sprintf("%s:scenario%d:%q", o, c.Scenario, names),
 			Detail: fmt.Sprintf("txtar.Write into %s (scenario %d: see setupScenario; dir form %d): property C15 evaluated directly on the implementation", targetRel, c.Scenario, c.DirForm)})
+	}
+	if c.DirForm == dirFormLink {
+		res.Count("write:oracles-only-symlinked-parent")
+		return
 	}
 	rn.checkModes(r.before, r.after, input(), key)
 	if want != got {
@@ -1545,6 +1609,36 @@ func (rn *runner) rootDirCase() {
 // it, or txtar-x reads it by name or as redirected standard input)
 func archiveOnDisk(c ccase) bool { return c.COut%2 == 1 || c.XIn%nXIn != 1 }
 
+// archives that txtar-x -C q/t (run in the empty directory p) must refuse: names that leave
+// the directory, including siblings whose path has the directory's path as a textual prefix
+// and names that come back into it
+var evilArchives = []string{"-- ../x --\nX\n", "-- /abs --\nX\n", "-- a/../../x --\nX\n", "-- .. --\nX\n",
+	"-- ../tx --\nX\n", "-- ../t.bak/f --\nX\n", "-- ../t/f --\nX\n", "-- ok --\nfine\n-- ../t/../t2/f --\nX\n", "-- ../../q/t/f --\nX\n", "-- ../../qx --\nX\n"}
+
+func (rn *runner) evilCase(evil string) {
+	res, f := rn.res, rn.f
+	caseSeq++
+	root := filepath.Join(f.Work, fmt.Sprintf("e%d", caseSeq))
+	defer os.RemoveAll(root)
+	os.MkdirAll(filepath.Join(root, "p"), 0o777)
+	before := snapshot(root)
+	_, rc := runCmd(filepath.Join(root, "p"), []byte(evil), binX, "-C", "q/t")
+	after := snapshot(root)
+	res.Case("evil:"+evil, true)
+	res.Count("cli:evil")
+	badOut := rc == 0
+	for k, o := range after {
+		if _, ok := before[k]; !ok && !under(k, "p/q/t") && !(o.dir && under("p/q/t", k)) {
+			badOut = true
+		}
+	}
+	if badOut {
+		res.Violate(common.Violation{Kind: "impl-violation", Oracle: "cli/txtar-x-contained",
+			Input: map[string]string{"kind": "evil", "archive": evil}, Impl: fmt.Sprintf("rc=%d after=%v", rc, sortedKeys(after)),
+			Key: "cli/txtar-x-contained:" + evil, Detail: "txtar-x -C q/t in an empty directory p: exit 0 or an object outside p/q/t"})
+	}
+}
+
 func uniq(l []string) []string {
 	var out []string
 	for _, x := range l {
@@ -1640,6 +1734,24 @@ func enumerate(sigma []string, maxLen int, f func([]string)) {
 var segSmall = []string{".", "..", "", "a", "b", ".h"}
 var segBig = []string{".", "..", "", "a", "b", ".h", `a\b`, "...", "..a", "a.", " ", "é", "target", "parent", "sib", `..\a`, "x y", "%s", "a%20b", "100%.txt", "%!", "%d%n"}
 
+// siblingNames: names that leave the directory through ".." and arrive at a path that has
+// the directory's own path as a TEXTUAL prefix (a sibling whose name merely starts with the
+// directory's name), or that come back into the directory after leaving it, or that go
+// through the parent's name.  Every one of them climbs out and must be refused.  They are
+// derived from the actual directory (.../parent/target).
+func siblingNames() []string {
+	base, par := filepath.Base(targetRel), filepath.Base(filepath.Dir(targetRel))
+	var out []string
+	for _, suf := range []string{"x", ".bak", "2", "-old", "_", "%s", " ", "/f", "/../" + base + "2/f", "x/deep/er"} {
+		out = append(out, "../"+base+suf, "./../"+base+suf, "a/../../"+base+suf, "..//"+base+suf)
+	}
+	for _, suf := range []string{"", "/f", "x", "x/f", ".bak/" + base + "/f"} {
+		out = append(out, "../../"+par+suf, "../../"+par+"/"+base+suf)
+	}
+	out = append(out, "../"+base, "../"+base+"/", "../"+base+"/.", "../"+base+"/a/b", "../sib", "../sibling", "../sd/x", "../sd/y")
+	return out
+}
+
 func genEntries(r *common.RNG) []entry {
 	n := 1 + r.Intn(4)
 	var es []entry
@@ -1658,6 +1770,9 @@ func genEntries(r *common.RNG) []entry {
 			}
 		}
 		name := strings.Join(segs, "/")
+		if r.Chance(1, 10) {
+			name = common.Pick(r, siblingNames())
+		}
 		switch r.Intn(12) {
 		case 0:
 			name = "/" + name
@@ -1771,6 +1886,10 @@ func main() {
 			if json.Unmarshal([]byte(in["case_json"]), &c) == nil {
 				rn.faultCase(c, tag)
 			}
+		case "evil":
+			if cliOK {
+				rn.evilCase(in["archive"])
+			}
 		case "symlink":
 			var es []entry
 			form := 0
@@ -1852,6 +1971,20 @@ func main() {
 			}
 		}
 	}
+	// names built from the directory's own name: textual-prefix siblings, re-entering names;
+	// alone (so that nothing else decides the result), first and after a good entry, in
+	// every scenario and under every way of naming the directory
+	for i, name := range siblingNames() {
+		for sc := 0; sc < nScenarios; sc++ {
+			for form := 0; form < nDirForms; form++ {
+				if form > 0 && (i+sc+form)%4 != 0 {
+					continue
+				}
+				rn.writeCase(wcase{Scenario: sc, DirForm: form, Entries: []entry{{Name: name, Data: []byte("ESCAPED:" + name)}}}, "sibling-names")
+			}
+			rn.writeCase(wcase{Scenario: sc, DirForm: (i + sc) % nDirForms, Entries: []entry{{Name: "good", Data: []byte("g")}, {Name: name, Data: []byte("E")}, {Name: "late", Data: []byte("l")}}}, "sibling-names")
+		}
+	}
 	// absolute / slash variants of the short names
 	enumerate(segSmall, 2, func(segs []string) {
 		name := strings.Join(segs, "/")
@@ -1907,7 +2040,7 @@ func main() {
 	rn.phase("big-archives")
 	// 4. txtar-c | txtar-x on generated trees
 	if cliOK {
-		nTrees := 300
+		nTrees := 240
 		if thorough {
 			nTrees = 5000
 		}
@@ -1985,29 +2118,10 @@ func main() {
 		rn.phase("cli-big-trees")
 		rn.rootDirCase()
 		// the command built on Write refuses escaping archives too
-		for _, evil := range []string{"-- ../x --\nX\n", "-- /abs --\nX\n", "-- a/../../x --\nX\n", "-- .. --\nX\n"} {
-			caseSeq++
-			root := filepath.Join(f.Work, fmt.Sprintf("e%d", caseSeq))
-			os.MkdirAll(filepath.Join(root, "p"), 0o777)
-			before := snapshot(root)
-			_, rc := runCmd(filepath.Join(root, "p"), []byte(evil), binX, "-C", "q/t")
-			after := snapshot(root)
-			res.Case("evil:"+evil, true)
-			res.Count("cli:evil")
-			badOut := rc == 0
-			for k, o := range after {
-				if _, ok := before[k]; !ok && !under(k, "p/q/t") && !(o.dir && under("p/q/t", k)) {
-					badOut = true
-				}
-			}
-			if badOut {
-				res.Violate(common.Violation{Kind: "impl-violation", Oracle: "cli/txtar-x-contained",
-					Input: map[string]string{"kind": "evil", "archive": evil}, Impl: fmt.Sprintf("rc=%d after=%v", rc, sortedKeys(after)),
-					Key: "cli/txtar-x-contained:" + evil, Detail: "txtar-x -C q/t in an empty directory p: exit 0 or an object outside p/q/t"})
-			}
-			os.RemoveAll(root)
+		for _, evil := range evilArchives {
+			rn.evilCase(evil)
 		}
 	}
-	res.Rule = fmt.Sprintf("corpus; every string over {/ . a \\} up to length %d for Clean/Dir/IsAbs/Join; txtar.Write of every name of 1..3 segments over %q in %d sandbox scenarios (plus slash/absolute variants and %d ways of naming the directory), then %d random archives of 1..4 entries with names of up to 4 segments over %q incl. duplicates; txtar-c|txtar-x on generated trees x {-quote} x {-a}; a Write case is non-trivial when a name contains \"..\", is absolute, empty or \".\", or the archive has several entries or the scenario has pre-existing objects in the target; distinct = distinct case", maxLen, segSmall, nScenarios, nDirForms, nRand, segBig)
+	res.Rule = fmt.Sprintf("corpus; descriptor traces (inotify) of %d archives of up to %d entries, %d fault cases (RLIMIT_FSIZE / no free descriptor) in child processes, %d big archives under a descriptor budget, big trees through every route of the commands; ", nTrace, maxTrace, nFault, nBig) + fmt.Sprintf("every string over {/ . a \\} up to length %d for Clean/Dir/IsAbs/Join; txtar.Write of every name of 1..3 segments over %q in %d sandbox scenarios (plus slash/absolute variants and %d ways of naming the directory), then %d random archives of 1..4 entries with names of up to 4 segments over %q incl. duplicates; txtar-c|txtar-x on generated trees x {-quote} x {-a}; a Write case is non-trivial when a name contains \"..\", is absolute, empty or \".\", or the archive has several entries or the scenario has pre-existing objects in the target; distinct = distinct case", maxLen, segSmall, nScenarios, nDirForms, nRand, segBig)
 	res.Write(f.Out)
 }
